@@ -24,6 +24,60 @@ pub struct Processes {
     pub runs: usize,
 }
 
+/// Resources whose synthesised operation ids, component names or path keys are close to each other or collide
+/// (`/a/b` vs `/a-b`, `/x/{id}` vs `/x/id`, `/` vs `/root`, case variants): whatever the compiler does about a
+/// collision must be the same in every process.
+fn collision_program(rng: &mut crate::util::Rng) -> Sources {
+    const URIS: [&str; 14] = [
+        "/a/b", "/a-b", "/a_b", "/A", "/a", "/", "/root", "/x/{ 'id str }", "/x/id", "/pets/{ 'id int }", "/pets/id", "/Pets", "/pets",
+        "/a/b/{ 'b num }",
+    ];
+    const METHODS: [&str; 4] = ["get", "put", "delete", "patch"];
+    let mut idx: Vec<usize> = (0..URIS.len()).collect();
+    rng.shuffle(&mut idx);
+    let k = rng.range(2, 6);
+    let mut text = String::from("let r = rec x { 'next x, 'v num };\nlet @named = { 'a r };\n");
+    for &u in idx.iter().take(k) {
+        let m = *rng.pick(&METHODS);
+        let m2 = *rng.pick(&METHODS);
+        let body = match rng.below(4) {
+            0 => "{}",
+            1 => "r",
+            2 => "@named",
+            _ => "{ 'p str }",
+        };
+        if m == m2 {
+            text.push_str(&format!("res {} on {m} -> <{body}>;\n", URIS[u]));
+        } else {
+            text.push_str(&format!("res {} on {m} -> <{body}>, {m2} -> <status=404, {{}}>;\n", URIS[u]));
+        }
+    }
+    Sources::single(&text)
+}
+
+/// The sources of case `idx`: mostly reference-clean G-wt programs, one in six straight from the generator (also
+/// the shapes the reference semantics leaves open, e.g. colliding operation ids), one in six collision-prone.
+fn case_sources(seed: u64, salt: &str, idx: u64, st: &mut Stats) -> Option<(Sources, bool)> {
+    match idx % 6 {
+        5 => {
+            let mut rng = crate::util::Rng::for_case(seed, &format!("{salt}-collide"), idx);
+            st.inc("collision_prone_programs");
+            Some((collision_program(&mut rng), true))
+        }
+        4 => {
+            let mut rng = crate::util::Rng::for_case(seed, &format!("{salt}-raw"), idx);
+            let p = crate::gen::wt::generate(&mut rng, &cfg());
+            st.inc("unfiltered_programs");
+            Some((sources_of(&crate::gen::print::print_program(&p)), true))
+        }
+        _ => gen_wt_case(seed, salt, idx, &cfg(), st).map(|c| {
+            let feats = features(&c.prog);
+            let nt = feats.contains(&"annotation") && (feats.contains(&"reference") || feats.contains(&"op-range"));
+            (c.sources, nt)
+        }),
+    }
+}
+
 fn first_byte_diff(a: &str, b: &str) -> usize {
     a.bytes().zip(b.bytes()).position(|(x, y)| x != y).unwrap_or(a.len().min(b.len()))
 }
@@ -45,10 +99,23 @@ fn context(s: &str, at: usize) -> String {
 fn check_processes(src: &Sources, runs: usize, st: &mut Stats) -> Vec<Violation> {
     let dir = TempDir::new("c06");
     write_sources(&dir.path, src);
+    let _ = std::fs::write(dir.path.join("oal.toml"), format!("[api]\nmain = \"{}\"\n", src.files[0].0));
+    let conf = dir.path.join("oal.toml");
     let mut first: Option<String> = None;
     for i in 0..runs {
         let target = format!("out{i}.yaml");
-        let r = run_cli(&dir.path, &src.files[0].0, &target, None);
+        // same sources at the same locations, addressed from different working directories
+        let r = match i % 4 {
+            1 => {
+                st.inc("cli_runs_from_parent_directory");
+                crate::drive::cli::run_cli_conf_from(dir.path.parent().unwrap_or(&dir.path), &conf, &target)
+            }
+            3 => {
+                st.inc("cli_runs_from_root_directory");
+                crate::drive::cli::run_cli_conf_from(std::path::Path::new("/"), &conf, &target)
+            }
+            _ => run_cli(&dir.path, &src.files[0].0, &target, None),
+        };
         st.inc("cli_runs");
         if !r.success() {
             st.inc("cli_failed_skipped");
@@ -88,18 +155,17 @@ impl Workload for Processes {
     }
     fn case_json(&self, seed: u64, idx: u64) -> Value {
         let mut st = Stats::new();
-        match gen_wt_case(seed, "c06", idx, &cfg(), &mut st) {
-            Some(c) => json!({"sources": c.sources.to_json()}),
+        match case_sources(seed, "c06", idx, &mut st) {
+            Some((s, _)) => json!({"sources": s.to_json()}),
             None => json!({"skipped": true}),
         }
     }
     fn run(&self, seed: u64, idx: u64, st: &mut Stats) -> Vec<Violation> {
-        let Some(c) = gen_wt_case(seed, "c06", idx, &cfg(), st) else { return vec![] };
-        let v = check_processes(&c.sources, self.runs, st);
-        let feats = features(&c.prog);
-        if feats.contains(&"annotation") && (feats.contains(&"reference") || feats.contains(&"op-range")) {
-            st.nontrivial(hash64(&c.sources.files));
-            st.sample(|| json!({"sources": c.sources.to_json(), "processes": self.runs}));
+        let Some((src, nt)) = case_sources(seed, "c06", idx, st) else { return vec![] };
+        let v = check_processes(&src, self.runs, st);
+        if nt {
+            st.nontrivial(hash64(&src.files));
+            st.sample(|| json!({"sources": src.to_json(), "processes": self.runs}));
         }
         v
     }
@@ -169,19 +235,19 @@ impl Workload for InProcess {
     }
     fn case_json(&self, seed: u64, idx: u64) -> Value {
         let mut st = Stats::new();
-        let a = gen_wt_case(seed, "c06a", idx, &cfg(), &mut st);
+        let a = case_sources(seed, "c06a", idx, &mut st);
         let b = gen_wt_case(seed, "c06b", idx, &cfg(), &mut st);
         match (a, b) {
-            (Some(a), Some(b)) => json!({"a": a.sources.to_json(), "b": b.sources.to_json()}),
+            (Some(a), Some(b)) => json!({"a": a.0.to_json(), "b": b.sources.to_json()}),
             _ => json!({"skipped": true}),
         }
     }
     fn run(&self, seed: u64, idx: u64, st: &mut Stats) -> Vec<Violation> {
-        let (Some(a), Some(b)) = (gen_wt_case(seed, "c06a", idx, &cfg(), st), gen_wt_case(seed, "c06b", idx, &cfg(), st)) else {
+        let (Some(a), Some(b)) = (case_sources(seed, "c06a", idx, st), gen_wt_case(seed, "c06b", idx, &cfg(), st)) else {
             return vec![];
         };
-        st.nontrivial(hash64(&a.sources.files));
-        check_in_process(&a.sources, &b.sources, st)
+        st.nontrivial(hash64(&a.0.files));
+        check_in_process(&a.0, &b.sources, st)
     }
     fn run_json(&self, case: &Value, st: &mut Stats) -> Vec<Violation> {
         if case.get("skipped").is_some() {
@@ -211,7 +277,7 @@ pub fn run(ctx: &Ctx) -> i32 {
     let runs = p.runs;
     acc.finish(
         "exploration",
-        &format!("G-wt programs biased to what can leak map order (examples with >=2 entries on contents and schemas, many references, ranges, modules, paths, nested annotation maps): each compiled by the real oal-cli in {runs} fresh processes (each has its own hash seeds) and the target files compared byte for byte; plus in-process triples A, B, A and A on a second thread through the library entry points; non-trivial = program with annotations and (references or ranges); distinct by source hash"),
+        &format!("G-wt programs biased to what can leak map order (examples with >=2 entries on contents and schemas, many references, ranges, modules, paths, nested annotation maps; one in six unfiltered by the reference semantics, one in six with near-colliding paths / operation ids / component names): each compiled by the real oal-cli in {runs} fresh processes (each has its own hash seeds; half of them started from another working directory through --conf <absolute path>) and the target files compared byte for byte; plus in-process triples A, B, A and A on a second thread through the library entry points; non-trivial = program with annotations and (references or ranges); distinct by source hash"),
         if ctx.quick() { 100 } else { 1000 },
         false,
         &["byte equality of the emitted YAML is the oracle; nothing is normalised"],
